@@ -106,8 +106,8 @@ func intersect(a, b factSet) factSet {
 type Engine struct {
 	w         *World
 	fx        map[*ssa.Function]*fnCtx
-	okSums  map[sumKey]*predSummary
-	okBusy  map[sumKey]bool
+	okSums    map[sumKey]*predSummary
+	okBusy    map[sumKey]bool
 	sums      map[*ssa.Function]*predSummary
 	sumBusy   map[*ssa.Function]bool
 	singleSt  map[*ssa.Alloc]int // number of stores to a local cell (including in closures)
@@ -836,6 +836,16 @@ func (e *Engine) binopFacts(v *ssa.BinOp, pol bool, fs factSet) {
 							if other := extractOf(c, j); other != nil {
 								fs.add(Fact{Kind: "nonnil", K: e.keyOf(other)})
 							}
+						}
+					}
+				}
+			}
+			// ... and the same for a function whose only result is the error
+			if c, ok := x.(*ssa.Call); ok {
+				if callee := c.Call.StaticCallee(); callee != nil && callee.Signature.Results().Len() == 1 && hasErrorResult(callee) == 0 {
+					for _, f := range e.errSummary(callee) {
+						if g, ok := e.substFact(f, callee, c.Call.Args); ok {
+							fs.add(g)
 						}
 					}
 				}
